@@ -90,8 +90,10 @@ def check_url_schemes(inst: "MdParserConfig", field: dc.Field, value: Any) -> No
                 )
             if (
                 "classes" in val
-                and not isinstance(val["classes"], list)
-                and not all(isinstance(c, str) for c in val["classes"])
+                and (
+                    not isinstance(val["classes"], list)
+                    or not all(isinstance(c, str) for c in val["classes"])
+                )
             ):
                 raise TypeError(
                     f"'{field.name}[{key}][classes]' is not a list of str: {val['classes']!r}"
